@@ -50,7 +50,7 @@ theorem rate_isolation (r : Rates) (k k' : Nat × Nat) (v : Nat) (h : k' ≠ k) 
     with one of those ids is not an announcement -/
 theorem search_order (fs : List DataField) (rs : List OptionsDataRecord) (v : Bytes) (x : Nat)
     (h305 : fs.find? (fun f => !f.penProvided && f.type == 305) = some ⟨false, 305, 0, some v⟩)
-    (hv : readU 4 v = .ok (x, [])) :
+    (hv : decodeUNumber 32 v = .ok x) :
     searchSamplingRate (⟨[], fs⟩ :: rs) = .ok (some x) := by
   simp [searchSamplingRate, populate, h305, hv]
 
